@@ -68,7 +68,7 @@ func bbit(b bool) uint64 {
 // snapshot is the full observable state of an object as a bit pattern.
 func (o *obj) snapshot() []uint64 {
 	switch o.kind {
-	case "f":
+	case "f", "w":
 		return fbits(o.f)
 	case "i":
 		return ibits(o.ints)
@@ -131,7 +131,7 @@ func buildObj(t Tok, heap []*obj) *obj {
 	k := t.Arr[0].Atom
 	o := &obj{kind: k}
 	switch k {
-	case "f":
+	case "f", "w":
 		o.f = t.Arr[1].Fs()
 	case "i":
 		o.ints = t.Arr[1].Ints()
@@ -312,7 +312,9 @@ var opTable = map[string]opSpec{
 		u := math.Floor(math.Abs(p[0])/(1+math.Abs(p[0]))*float64(d.N1*d.N2)*2.2) / 2
 		return f2(d.CDF(u), d.PMF(u))
 	}},
-	"UD.Inv": {[]string{"ud"}, 1, false, func(o []*obj, p []float64) []uint64 { return f1(stats.InvCDF(*o[0].ud)(math.Abs(p[0]) / (1 + math.Abs(p[0])))) }},
+	"UD.Inv": {[]string{"ud"}, 1, false, func(o []*obj, p []float64) []uint64 {
+		return f1(stats.InvCDF(*o[0].ud)(math.Abs(p[0]) / (1 + math.Abs(p[0]))))
+	}},
 	// StreamStats / hist
 	"St.Read": {[]string{"st"}, 0, false, func(o []*obj, p []float64) []uint64 { return o[0].snapshot() }},
 	"St.Add":  {[]string{"st"}, 1, true, func(o []*obj, p []float64) []uint64 { o[0].st.Add(p[0]); return nil }},
@@ -342,6 +344,20 @@ var opTable = map[string]opSpec{
 		}
 		r := fit.PolynomialRegression(o[0].f[:n], o[1].f[:n], nil, 2)
 		return append(fbits(r.Coefficients), f1(r.F(0.5))...)
+	}},
+	"PolyRegW": {[]string{"f", "f", "w"}, 0, false, func(o []*obj, p []float64) []uint64 {
+		// weighted fit; the weight object is passed as it is (ordinary, huge or tiny positive weights)
+		n := len(o[0].f)
+		for _, q := range o[1:] {
+			if len(q.f) < n {
+				n = len(q.f)
+			}
+		}
+		if n < 4 {
+			return nil
+		}
+		r := fit.PolynomialRegression(o[0].f[:n], o[1].f[:n], o[2].f[:n], 1)
+		return fbits(r.Coefficients)
 	}},
 	"LOESS": {[]string{"f", "f"}, 1, false, func(o []*obj, p []float64) []uint64 {
 		n := len(o[0].f)
@@ -610,7 +626,19 @@ func genC20(w *bufio.Writer, tier string, rng *rand.Rand) {
 		// a fixed palette of objects so that every op has candidates
 		positive := rng.Intn(2) == 0
 		for i := 0; i < 3; i++ {
-			add("f", fmt.Sprintf("[f,%s]", fmtFs(tiedUnsorted(rng, 6+rng.Intn(20), positive))))
+			xs := tiedUnsorted(rng, 6+rng.Intn(20), positive)
+			if i == 0 && rng.Intn(2) == 0 { // already ascending, with ties
+				sort.Float64s(xs)
+			}
+			add("f", fmt.Sprintf("[f,%s]", fmtFs(xs)))
+		}
+		{ // positive weights: ordinary, huge or tiny
+			ws := make([]float64, 26)
+			sc := []float64{1, 1, 1e120, 1e-120, 1e200, 1e-200, 1e101, 1e-101}[rng.Intn(8)]
+			for i := range ws {
+				ws[i] = float64(1+rng.Intn(8)) / 4 * sc
+			}
+			add("w", fmt.Sprintf("[w,%s]", fmtFs(ws)))
 		}
 		add("s", fmt.Sprintf("[s,%s,-,0]", fmtFs(tiedUnsorted(rng, 5+rng.Intn(20), positive))))
 		wsn := 5 + rng.Intn(12)
